@@ -3,7 +3,6 @@ from ..common import hx
 from .. import registry
 from .gens import key_for, blocks_for
 
-LEVEL = "exploration"
 RULE = ("encs/decs lines: block counts 0..3*P+2 around every parallel width (P in {1,2,3,4,8,9}), shapes inplace / inout / b2b / "
         "per-block in-place / per-block b2b / per-block inout, buffers carved at byte offsets 0..15 of canary-filled "
         "allocations; oracle on the real crate: every shape = the per-block single-call result, input buffer unchanged, "
